@@ -386,14 +386,13 @@ Proof.
   2:{ right; right. cbn. auto. }
   destruct (u_password u) as [pw|] eqn:Ep.
   - destruct (bytes_eqb (md5_hash_password md5 name pw salt) body) eqn:Eb.
-    + apply bytes_eqb_eq in Eb. left. exists body, tail, [], (cached e). repeat split; auto using evs_ok_nil.
+    + apply bytes_eqb_eq in Eb. left. exists body, tail, [], (cached e). split; [first [reflexivity|assumption]|]. split; [|split; [first [apply evs_ok_nil; assumption|apply evs_ok_nil]|reflexivity]].
       left. exists pw. auto.
     + unfold refetch. destruct (p_aq p) eqn:Eaq.
       * unfold next_fetch. destruct (fetches e) as [|[h|] fs] eqn:Ef; cbn [fst snd].
         -- refused (WRefetchFailed) evs_ok_one.
         -- destruct (bytes_eqb (md5_hash_second_pass md5 h salt) body) eqn:Eh.
-           ++ apply bytes_eqb_eq in Eh. left. exists body, tail, [EvAuthQuery db name], (Some h).
-              repeat split; auto using evs_ok_one. right; right. exists h. rewrite Ef. repeat split; auto. left; reflexivity.
+           ++ apply bytes_eqb_eq in Eh. left. exists body, tail, [EvAuthQuery db name], (Some h). split; [first [reflexivity|assumption]|]. split; [|split; [first [apply evs_ok_one; assumption|apply evs_ok_one]|reflexivity]]. right; right. exists h. rewrite ?Ef. repeat split; auto. left; reflexivity.
            ++ refused (WInvalidPassword) evs_ok_one.
         -- refused (WRefetchFailed) evs_ok_one.
       * refused (WRefetchFailed) evs_ok_nil.
@@ -401,14 +400,13 @@ Proof.
     2:{ refused (WAuthImpossible) evs_ok_nil. }
     destruct (cached e) as [h0|] eqn:Ec.
     + destruct (bytes_eqb (md5_hash_second_pass md5 h0 salt) body) eqn:Eh0.
-      * apply bytes_eqb_eq in Eh0. left. exists body, tail, [], (Some h0). repeat split; auto using evs_ok_nil.
+      * apply bytes_eqb_eq in Eh0. left. exists body, tail, [], (Some h0). split; [first [reflexivity|assumption]|]. split; [|split; [first [apply evs_ok_nil; assumption|apply evs_ok_nil]|reflexivity]].
         right; left. exists h0. auto.
       * unfold refetch. destruct (p_aq p) eqn:Eaq.
         -- unfold next_fetch. destruct (fetches e) as [|[h|] fs] eqn:Ef; cbn [fst snd app].
            ++ refused (WRefetchFailed) evs_ok_one.
            ++ destruct (bytes_eqb (md5_hash_second_pass md5 h salt) body) eqn:Eh.
-              ** apply bytes_eqb_eq in Eh. left. exists body, tail, [EvAuthQuery db name], (Some h).
-                 repeat split; auto using evs_ok_one. right; right. exists h. rewrite Ef. repeat split; auto. left; reflexivity.
+              ** apply bytes_eqb_eq in Eh. left. exists body, tail, [EvAuthQuery db name], (Some h). split; [first [reflexivity|assumption]|]. split; [|split; [first [apply evs_ok_one; assumption|apply evs_ok_one]|reflexivity]]. right; right. exists h. rewrite ?Ef. repeat split; auto. left; reflexivity.
               ** refused (WInvalidPassword) evs_ok_one.
            ++ refused (WRefetchFailed) evs_ok_one.
         -- refused (WRefetchFailed) evs_ok_nil.
@@ -416,13 +414,11 @@ Proof.
       * unfold next_fetch. destruct (fetches e) as [|[h|] fs] eqn:Ef; cbn [fst snd app].
         -- refused (WPassthrough) evs_ok_one.
         -- destruct (bytes_eqb (md5_hash_second_pass md5 h salt) body) eqn:Eh.
-           ++ apply bytes_eqb_eq in Eh. left. exists body, tail, [EvAuthQuery db name], (Some h).
-              repeat split; auto using evs_ok_one. right; right. exists h. repeat split; auto. left; reflexivity.
+           ++ apply bytes_eqb_eq in Eh. left. exists body, tail, [EvAuthQuery db name], (Some h). split; [first [reflexivity|assumption]|]. split; [|split; [first [apply evs_ok_one; assumption|apply evs_ok_one]|reflexivity]]. right; right. exists h. rewrite ?Ef. repeat split; auto. left; reflexivity.
            ++ destruct fs as [|[h2|] fs2]; cbn [fst snd app].
               ** refused (WRefetchFailed) evs_ok_two.
               ** destruct (bytes_eqb (md5_hash_second_pass md5 h2 salt) body) eqn:Eh2.
-                 --- apply bytes_eqb_eq in Eh2. left. exists body, tail, ([EvAuthQuery db name] ++ [EvAuthQuery db name]), (Some h2).
-                     repeat split; auto using evs_ok_two. right; right. exists h2. repeat split; auto. right; left; reflexivity.
+                 --- apply bytes_eqb_eq in Eh2. left. exists body, tail, ([EvAuthQuery db name] ++ [EvAuthQuery db name]), (Some h2). split; [first [reflexivity|assumption]|]. split; [|split; [first [apply evs_ok_two; assumption|apply evs_ok_two]|reflexivity]]. right; right. exists h2. rewrite ?Ef. repeat split; auto. right; left; reflexivity.
                  --- refused (WInvalidPassword) evs_ok_two.
               ** refused (WRefetchFailed) evs_ok_two.
         -- refused (WPassthrough) evs_ok_one.
@@ -430,3 +426,285 @@ Proof.
 Qed.
 
 End Main.
+
+Section Theorems.
+Variable md5 : bytes -> bytes.
+Variable chk : bool.
+
+Lemma admin_md5_cases : forall c e name salt rest,
+  let r := admin_md5 md5 chk c e name salt rest in
+  events r = [] /\ cache' r = cached e /\
+  ((exists body tail, read_password chk rest = PwOk body tail /\
+      body = md5_hash_password md5 (admin_user c) (admin_password c) salt /\
+      out r = AdminAdmitted /\ replies r = [RMd5Request salt] ++ auth_tail) \/
+   (exists w, out r = Rejected w /\ w <> WPoolDown /\ w <> WShuttingDown /\
+      (replies r = [RMd5Request salt] \/ replies r = [RMd5Request salt; RError (EWrongPassword name)]) /\
+      (forall body tail, read_password chk rest = PwOk body tail ->
+         w = WInvalidPassword /\ replies r = [RMd5Request salt; RError (EWrongPassword name)] /\
+         body <> md5_hash_password md5 (admin_user c) (admin_password c) salt)) \/
+   (out r = TaskPanic /\ replies r = [RMd5Request salt] /\ read_password chk rest = PwPanic)).
+Proof.
+  intros c e name salt rest r. subst r. unfold admin_md5.
+  destruct (read_password chk rest) as [body tail|st|code|] eqn:Er; cbn [events cache' mk out replies].
+  - destruct (bytes_eqb (md5_hash_password md5 (admin_user c) (admin_password c) salt) body) eqn:Eb; cbn [events cache' mk out replies].
+    + apply bytes_eqb_eq in Eb. repeat split. left. exists body, tail. auto.
+    + apply bytes_eqb_neq in Eb. repeat split. right; left. exists WInvalidPassword.
+      split; [reflexivity|]. split; [discriminate|]. split; [discriminate|]. split; [auto|].
+      intros b t Hb. inversion Hb; subst. repeat split; auto.
+  - repeat split. right; left. exists (WSocket st). repeat split; try discriminate; auto; intros; discriminate.
+  - repeat split. right; left. exists (WExpectedP code). repeat split; try discriminate; auto; intros; discriminate.
+  - repeat split. right; right. auto.
+Qed.
+
+Lemma valid_body_secret : forall c e db name p u salt body,
+  served c db name p u -> valid_body md5 e p u name salt body ->
+  exists s, secret_of c e db name s /\ body = expected md5 name s salt.
+Proof.
+  intros c e db name p u salt body Hs [(pw & H1 & H2)|[(h & H1 & H2 & H3)|(h & H1 & H2 & H3)]].
+  - exists (Clear pw). split; [exists p, u; split; [assumption|]; left; exists pw; auto|].
+    cbn [expected]. rewrite <- hash_password_eq. assumption.
+  - exists (Shadow h). split; [exists p, u; split; [assumption|]; right; left; exists h; auto|].
+    cbn [expected]. rewrite <- second_pass_eq. assumption.
+  - exists (Shadow h). split; [exists p, u; split; [assumption|]; right; right; exists h; auto|].
+    cbn [expected]. rewrite <- second_pass_eq. assumption.
+Qed.
+
+(** *** soundness of admission to a pool *)
+Lemma admit_sound : forall c sd salt payload rest e db name,
+  out (startup md5 chk c sd salt payload rest e) = Admitted db name ->
+  ident payload = IdOk name db /\ sd = false /\ is_admin_db db = false /\ configured c db name /\
+  (trust c db name \/
+   exists body tail s, read_password chk rest = PwOk body tail /\
+     secret_of c e db name s /\ body = expected md5 name s salt).
+Proof.
+  intros c sd salt payload rest e db name H. unfold startup in H.
+  destruct (ident payload) as [n d| | |] eqn:Ei; try discriminate.
+  destruct (is_admin_db d) eqn:Ea; cbn [negb andb] in H.
+  { destruct (admin_auth c); [discriminate|].
+    destruct (admin_md5_cases c e n salt rest) as (_ & _ & [(b & t & _ & _ & Ho & _)|[(w & Ho & _)|(Ho & _)]]);
+      rewrite Ho in H; discriminate. }
+  destruct sd; [discriminate|].
+  destruct (get_pool c d n) as [[p u]|] eqn:Eg; [|discriminate].
+  pose proof (get_pool_served _ _ _ _ _ Eg) as Hs.
+  destruct (u_auth u) eqn:Eu.
+  - destruct (finish_user_cases e d n [] [] (cached e)) as (_ & _ & [(Ho & _)|(Ho & _)]); rewrite Ho in H; [|discriminate].
+    inversion H; subst d n. repeat split; auto. { eapply served_configured; eassumption. }
+    left. exists p, u. auto.
+  - destruct (user_md5_cases md5 chk c e p u d n salt rest) as [(body & tail & ev & c' & Hr & Hv & _ & Hf)|[(w & Ho & _)|(Ho & _)]].
+    + rewrite Hf in H.
+      destruct (finish_user_cases e d n [RMd5Request salt] ev c') as (_ & _ & [(Ho & _)|(Ho & _)]); rewrite Ho in H; [|discriminate].
+      inversion H; subst d n. repeat split; auto. { eapply served_configured; eassumption. }
+      right. destruct (valid_body_secret _ _ _ _ _ _ _ _ Hs Hv) as (s & S1 & S2). exists body, tail, s. auto.
+    + rewrite Ho in H. discriminate.
+    + rewrite Ho in H. discriminate.
+Qed.
+
+(** the same with the answer located in the byte stream *)
+Lemma admit_sound_frame : forall c sd salt payload rest e db name,
+  Forall byte_ok (firstn 5 rest) ->
+  out (startup md5 chk c sd salt payload rest e) = Admitted db name ->
+  configured c db name /\
+  (trust c db name \/
+   exists s tail, secret_of c e db name s /\ rest = password_frame (expected md5 name s salt) ++ tail).
+Proof.
+  intros c sd salt payload rest e db name Hb H.
+  destruct (admit_sound _ _ _ _ _ _ _ _ H) as (_ & _ & _ & Hc & [Ht|(body & tail & s & Hr & Hs & He)]).
+  - auto.
+  - split; [assumption|]. right. exists s, tail. split; [assumption|]. subst body.
+    apply (read_password_ok_inv chk); assumption.
+Qed.
+
+(** *** the admin database requires the admin credentials *)
+Lemma admin_sound : forall c sd salt payload rest e,
+  out (startup md5 chk c sd salt payload rest e) = AdminAdmitted ->
+  exists name db, ident payload = IdOk name db /\ is_admin_db db = true /\
+    (admin_auth c = Trust \/
+     exists body tail, read_password chk rest = PwOk body tail /\
+       body = pg_md5 md5 (admin_user c) (admin_password c) salt).
+Proof.
+  intros c sd salt payload rest e H. unfold startup in H.
+  destruct (ident payload) as [n d| | |] eqn:Ei; try discriminate.
+  exists n, d. split; [reflexivity|].
+  destruct (is_admin_db d) eqn:Ea; cbn [negb andb] in H.
+  - split; [reflexivity|]. destruct (admin_auth c) eqn:Eauth; [left; reflexivity|].
+    destruct (admin_md5_cases c e n salt rest) as (_ & _ & [(b & t & Hr & Hb & _)|[(w & Ho & _)|(Ho & _)]]).
+    + right. exists b, t. rewrite <- hash_password_eq. auto.
+    + rewrite Ho in H. discriminate.
+    + rewrite Ho in H. discriminate.
+  - exfalso. destruct sd; [discriminate|].
+    destruct (get_pool c d n) as [[p u]|]; [|discriminate].
+    destruct (u_auth u).
+    + destruct (finish_user_cases e d n [] [] (cached e)) as (_ & _ & [(Ho & _)|(Ho & _)]); rewrite Ho in H; discriminate.
+    + destruct (user_md5_cases md5 chk c e p u d n salt rest) as [(body & tail & ev & c' & _ & _ & _ & Hf)|[(w & Ho & _)|(Ho & _)]].
+      * rewrite Hf in H.
+        destruct (finish_user_cases e d n [RMd5Request salt] ev c') as (_ & _ & [(Ho & _)|(Ho & _)]); rewrite Ho in H; discriminate.
+      * rewrite Ho in H. discriminate.
+      * rewrite Ho in H. discriminate.
+Qed.
+
+(** *** replies: AuthenticationOk only at admission, only challenges before it *)
+Definition replies_ok (r : result) : Prop :=
+  if is_admitted (out r)
+  then exists pre, replies r = pre ++ auth_tail /\ forallb pre_auth_reply pre = true
+  else forallb refusal_reply (replies r) = true.
+
+Lemma replies_ok_startup : forall c sd salt payload rest e, replies_ok (startup md5 chk c sd salt payload rest e).
+Proof.
+  intros c sd salt payload rest e. unfold startup.
+  destruct (ident payload) as [n d| | |] eqn:Ei; try reflexivity.
+  destruct (is_admin_db d) eqn:Ea; cbn [negb andb].
+  { destruct (admin_auth c).
+    - exists []. split; reflexivity.
+    - unfold replies_ok.
+      destruct (admin_md5_cases c e n salt rest) as (_ & _ & [(b & t & _ & _ & Ho & Hr)|[(w & Ho & _ & _ & Hr & _)|(Ho & Hr & _)]]);
+        rewrite Ho; cbn [is_admitted].
+      + exists [RMd5Request salt]. split; [assumption|reflexivity].
+      + destruct Hr as [Hr|Hr]; rewrite Hr; reflexivity.
+      + rewrite Hr. reflexivity. }
+  destruct sd; [reflexivity|].
+  destruct (get_pool c d n) as [[p u]|] eqn:Eg; [|reflexivity].
+  destruct (u_auth u).
+  - unfold replies_ok.
+    destruct (finish_user_cases e d n [] [] (cached e)) as (_ & _ & [(Ho & Hr)|(Ho & Hr & _)]); rewrite Ho; cbn [is_admitted].
+    + exists []. split; [assumption|reflexivity].
+    + rewrite Hr. reflexivity.
+  - unfold replies_ok.
+    destruct (user_md5_cases md5 chk c e p u d n salt rest) as [(body & tail & ev & c' & _ & _ & _ & Hf)|[(w & Ho & _ & _ & Hr & _)|(Ho & Hr & _)]].
+    + rewrite Hf.
+      destruct (finish_user_cases e d n [RMd5Request salt] ev c') as (_ & _ & [(Ho & Hr)|(Ho & Hr & _)]); rewrite Ho; cbn [is_admitted].
+      * exists [RMd5Request salt]. split; [assumption|reflexivity].
+      * rewrite Hr. reflexivity.
+    + rewrite Ho. cbn [is_admitted]. destruct Hr as [Hr|Hr]; rewrite Hr; reflexivity.
+    + rewrite Ho. cbn [is_admitted]. rewrite Hr. reflexivity.
+Qed.
+
+Lemma replies_ok_prepend : forall x r, pre_auth_reply x = true -> replies_ok r -> replies_ok (prepend [x] r).
+Proof.
+  intros x r Hx H. unfold replies_ok, prepend in *. cbn [out replies mk].
+  destruct (is_admitted (out r)).
+  - destruct H as (pre & H1 & H2). exists (x :: pre). rewrite H1. split; [reflexivity|]. cbn [forallb]. rewrite Hx, H2. reflexivity.
+  - cbn [app forallb]. rewrite H. destruct x; try discriminate; reflexivity.
+Qed.
+
+Lemma replies_ok_entry : forall c sd salt stream e, replies_ok (entry md5 chk c sd salt stream e).
+Proof.
+  intros c sd salt stream e. unfold entry.
+  destruct (get_startup stream) as [[| |] payload rest| | |]; try reflexivity.
+  - destruct (tls c).
+    + destruct (tls_ok e); [|reflexivity].
+      destruct (get_startup rest) as [[| |] p2 r2| | |]; try reflexivity.
+      apply replies_ok_prepend; [reflexivity|apply replies_ok_startup].
+    + destruct (get_startup rest) as [[| |] p2 r2| | |]; try reflexivity.
+      apply replies_ok_prepend; [reflexivity|apply replies_ok_startup].
+  - apply replies_ok_startup.
+Qed.
+
+Lemma no_authok_before : forall c sd salt stream e,
+  let r := entry md5 chk c sd salt stream e in
+  is_admitted (out r) = false -> ~ In RAuthOk (replies r) /\ forallb refusal_reply (replies r) = true.
+Proof.
+  intros c sd salt stream e r H. subst r.
+  pose proof (replies_ok_entry c sd salt stream e) as Hr. unfold replies_ok in Hr. rewrite H in Hr.
+  split; [|assumption]. intro Hin. rewrite forallb_forall in Hr. specialize (Hr _ Hin). discriminate.
+Qed.
+
+Lemma authok_after_challenges_only : forall c sd salt stream e,
+  let r := entry md5 chk c sd salt stream e in
+  is_admitted (out r) = true ->
+  exists pre, replies r = pre ++ [RAuthOk; RParamStatuses; RBackendKeyData; RReadyForQuery] /\
+              forallb pre_auth_reply pre = true.
+Proof.
+  intros c sd salt stream e r H. subst r.
+  pose proof (replies_ok_entry c sd salt stream e) as Hr. unfold replies_ok in Hr. rewrite H in Hr. exact Hr.
+Qed.
+
+(** *** shutdown gate *)
+Lemma shutdown_gate : forall c salt payload rest e name db,
+  ident payload = IdOk name db -> is_admin_db db = false ->
+  startup md5 chk c true salt payload rest e = mk (Rejected WShuttingDown) [RError EAdminOnly] [] (cached e).
+Proof.
+  intros c salt payload rest e name db Hi Ha. unfold startup. rewrite Hi, Ha. reflexivity.
+Qed.
+
+Lemma shutdown_no_pool_admission : forall c salt stream e db name,
+  out (entry md5 chk c true salt stream e) <> Admitted db name.
+Proof.
+  intros c salt stream e db name H.
+  assert (Hs : forall payload rest, out (startup md5 chk c true salt payload rest e) <> Admitted db name).
+  { intros payload rest Hx. apply admit_sound in Hx. destruct Hx as (_ & Hsd & _). discriminate. }
+  unfold entry in H.
+  destruct (get_startup stream) as [[| |] payload rest| | |]; try discriminate.
+  - destruct (tls c).
+    + destruct (tls_ok e); [|discriminate].
+      destruct (get_startup rest) as [[| |] p2 r2| | |]; try discriminate. exact (Hs _ _ H).
+    + destruct (get_startup rest) as [[| |] p2 r2| | |]; try discriminate. exact (Hs _ _ H).
+  - exact (Hs _ _ H).
+Qed.
+
+(** *** server contacts before admission: only the pooler's own, for the served pool *)
+Definition event_ok (c : cfg) (db name : bytes) (x : event) : Prop :=
+  match x with
+  | EvAuthQuery d n => d = db /\ n = name /\ exists p u, served c db name p u /\ p_aq p = true
+  | EvValidate d n => d = db /\ n = name /\ exists p u, served c db name p u
+  | EvClientBytes _ => False
+  end.
+
+Lemma events_startup : forall c sd salt payload rest e,
+  let r := startup md5 chk c sd salt payload rest e in
+  match ident payload with
+  | IdOk name db => Forall (event_ok c db name) (events r) /\ (is_admin_db db = true -> events r = [])
+  | _ => events r = []
+  end.
+Proof.
+  intros c sd salt payload rest e r. subst r. unfold startup.
+  destruct (ident payload) as [n d| | |] eqn:Ei; try reflexivity.
+  destruct (is_admin_db d) eqn:Ea; cbn [negb andb].
+  { destruct (admin_auth c).
+    - split; [constructor|reflexivity].
+    - destruct (admin_md5_cases c e n salt rest) as (He & _). rewrite He. split; [constructor|reflexivity]. }
+  split; [|discriminate].
+  destruct sd; [constructor|].
+  destruct (get_pool c d n) as [[p u]|] eqn:Eg; [|constructor].
+  pose proof (get_pool_served _ _ _ _ _ Eg) as Hs.
+  assert (Hfin : forall pre ev c', evs_ok p d n ev -> Forall (event_ok c d n) (events (finish_user e d n pre ev c'))).
+  { intros pre ev c' [Hev Haq].
+    assert (Hbase : Forall (event_ok c d n) ev).
+    { destruct ev as [|x ev']; [constructor|]. specialize (Haq ltac:(discriminate)).
+      eapply Forall_impl; [|exact Hev]. intros a Ha. cbv beta in Ha. subst a. cbn. repeat split; auto. exists p, u. auto. }
+    destruct (finish_user_cases e d n pre ev c') as (_ & [Hx|Hx] & _); rewrite Hx; [assumption|].
+    apply Forall_app. split; [assumption|]. constructor; [|constructor]. cbn. repeat split; auto. exists p, u. auto. }
+  destruct (u_auth u).
+  - apply Hfin. apply evs_ok_nil.
+  - destruct (user_md5_cases md5 chk c e p u d n salt rest) as [(body & tail & ev & c' & _ & _ & Hev & Hf)|[(w & _ & _ & _ & _ & Hev & _)|(_ & _ & Hev & _)]].
+    + rewrite Hf. apply Hfin. assumption.
+    + destruct Hev as [Hev Haq].
+      destruct (events (user_md5 md5 chk c e p u d n salt rest)) as [|x ev'] eqn:Ee; [constructor|].
+      specialize (Haq ltac:(discriminate)).
+      eapply Forall_impl; [|exact Hev]. intros a Ha. cbv beta in Ha. subst a. cbn. repeat split; auto. exists p, u. auto.
+    + rewrite Hev. constructor.
+Qed.
+
+Lemma events_entry : forall c sd salt stream e,
+  Forall (fun x => match x with EvClientBytes _ => False | EvAuthQuery d n | EvValidate d n => configured c d n end)
+         (events (entry md5 chk c sd salt stream e)).
+Proof.
+  intros c sd salt stream e.
+  assert (Hs : forall payload rest,
+    Forall (fun x => match x with EvClientBytes _ => False | EvAuthQuery d n | EvValidate d n => configured c d n end)
+           (events (startup md5 chk c sd salt payload rest e))).
+  { intros payload rest. pose proof (events_startup c sd salt payload rest e) as H. cbv zeta in H.
+    destruct (ident payload) as [n d| | |]; try (rewrite H; constructor).
+    destruct H as [H _]. eapply Forall_impl; [|exact H].
+    intros [d' n'|d' n'|b] Hx; cbn in Hx; try contradiction.
+    - destruct Hx as (-> & -> & p & u & Hsv & _). eapply served_configured; eassumption.
+    - destruct Hx as (-> & -> & p & u & Hsv). eapply served_configured; eassumption. }
+  unfold entry.
+  destruct (get_startup stream) as [[| |] payload rest| | |]; try constructor.
+  - destruct (tls c).
+    + destruct (tls_ok e); [|constructor].
+      destruct (get_startup rest) as [[| |] p2 r2| | |]; try constructor. apply Hs.
+    + destruct (get_startup rest) as [[| |] p2 r2| | |]; try constructor. apply Hs.
+  - apply Hs.
+Qed.
+
+End Theorems.
